@@ -276,6 +276,7 @@ pub struct Src {
 pub struct World {
     /// upgrade of a weak loop handle (the weak handle type is not nameable outside the crate)
     pub weak: Weak,
+    pub signal: Option<calloop::LoopSignal>,
     pub epfd: RawFd,
     pub tokens: Vec<RegistrationToken>,
     pub srcs: BTreeMap<u32, Src>,
@@ -1034,6 +1035,17 @@ pub fn exec_op(w: &W, lp: Option<&mut Option<EventLoop<'static, ()>>>, op: &Valu
             ret["us"] = json!(w.borrow().now_us());
             done!(rs)
         }
+        "wakeup" => {
+            // LoopSignal::wakeup(): the next wait returns at once with nothing to report
+            let sig = w.borrow().signal.clone();
+            match sig {
+                Some(sg) => {
+                    sg.wakeup();
+                    done!("ok")
+                }
+                None => done!("nohandle"),
+            }
+        }
         "drop_loop" => {
             let Some(lp) = lp else { done!("nested") };
             drop(handle);
@@ -1084,7 +1096,11 @@ pub fn install_observer(w: &W) {
 /// The declaration of a source as logged in `reset`: every field present, no nulls.
 fn normal_decl(spec: &Value, fds: &[i32]) -> Value {
     let kind = spec["kind"].as_str().unwrap_or("ping");
-    let children: Vec<Value> = if kind == "comp" {
+    let children: Vec<Value> = if spec.get("dupof").is_some() {
+        vec![json!({"interest": spec["interest"].as_str().unwrap_or("r"),
+                    "mode": spec["mode"].as_str().unwrap_or("level"),
+                    "transient": 0, "fd": "sock"})]
+    } else if kind == "comp" {
         spec["children"]
             .as_array()
             .cloned()
@@ -1097,10 +1113,6 @@ fn normal_decl(spec: &Value, fds: &[i32]) -> Value {
                        "fd": c["fd"].as_str().unwrap_or("sock")})
             })
             .collect()
-    } else if spec.get("dupof").is_some() {
-        vec![json!({"interest": spec["interest"].as_str().unwrap_or("r"),
-                    "mode": spec["mode"].as_str().unwrap_or("level"),
-                    "transient": 0, "fd": "sock"})]
     } else {
         vec![]
     };
@@ -1150,6 +1162,7 @@ pub fn run_scenario(scn: &Value) {
             Weak(Rc::new(move || wk.upgrade()))
         },
         epfd,
+        signal: Some(lp.as_ref().unwrap().get_signal()),
         tokens: vec![],
         srcs: BTreeMap::new(),
         idles: BTreeMap::new(),
